@@ -11,11 +11,11 @@ pub fn floor(x: i32) -> i32 {
 }
 
 pub fn round(x: i32) -> i32 {
-    floor(x + 32)
+    floor(x.wrapping_add(32))
 }
 
 pub fn ceil(x: i32) -> i32 {
-    floor(x + 63)
+    floor(x.wrapping_add(63))
 }
 
 fn floor_pad(x: i32, n: i32) -> i32 {
@@ -23,7 +23,7 @@ fn floor_pad(x: i32, n: i32) -> i32 {
 }
 
 pub fn round_pad(x: i32, n: i32) -> i32 {
-    floor_pad(x + n / 2, n)
+    floor_pad(x.wrapping_add(n / 2), n)
 }
 
 #[inline(always)]
@@ -45,27 +45,25 @@ pub fn mul_div(a: i32, b: i32, c: i32) -> i32 {
 /// Fixed point multiply and divide without rounding: a * b / c
 ///
 /// Based on <https://gitlab.freedesktop.org/freetype/freetype/-/blob/57617782464411201ce7bbc93b086c1b4d7d84a5/src/base/ftcalc.c#L200>
-pub fn mul_div_no_round(mut a: i32, mut b: i32, mut c: i32) -> i32 {
+pub fn mul_div_no_round(a: i32, b: i32, c: i32) -> i32 {
     let mut s = 1;
     if a < 0 {
-        a = -a;
         s = -1;
     }
     if b < 0 {
-        b = -b;
         s = -s;
     }
     if c < 0 {
-        c = -c;
         s = -s;
     }
-    let d = if c > 0 {
-        ((a as i64) * (b as i64)) / c as i64
-    } else {
-        0x7FFFFFFF
-    };
+    // Work on unsigned magnitudes so that i32::MIN is handled without
+    // overflow (matches FreeType's FT_MulDiv_No_Round).
+    let a = a.unsigned_abs() as u64;
+    let b = b.unsigned_abs() as u64;
+    let c = c.unsigned_abs() as u64;
+    let d = if c > 0 { (a * b) / c } else { 0x7FFFFFFF };
     if s < 0 {
-        -(d as i32)
+        (d as i32).wrapping_neg()
     } else {
         d as i32
     }
